@@ -201,6 +201,7 @@ class CopyFamily(Family):
             self._run(prog, res)
         self._unrolled_copies(prog, res)
         self._block_copies(prog, res)
+        self._structure_path(prog, res)
         res.transitions = 3 * count_events(prog) + 3 + 2 * N_MUT
         res.validated = 3
         res.trivial = len(prog) < 2
@@ -365,6 +366,32 @@ def _block_copies(self, prog, res):
 
 
 CopyFamily._block_copies = _block_copies
+
+
+def _structure_path(self, prog, res):
+    """Route 6: blocks handed to add as structures (ICircuitCompositeOperation) are copied as well: the circuit must not
+    share operations with the structure it was given, and must not change when that structure grows afterwards."""
+    if not has_block(prog):
+        return
+    world.clear_memo()
+    with world.override(world.CFG_G):
+        b = build(prog, via_structure=True)
+        before = (circ_rows(b.circ), acq_of(b.circ.operations))
+        for i, sb in enumerate(b.subs):
+            if sb is None:
+                continue
+            given = sb.circ.circuit_structure
+            if b.ent[i] is given or set(map(id, b.ent[i].decomposed_operations())) & set(map(id, given.decomposed_operations())):
+                res.fail('C05-structure-not-copied', 'program %r: a block handed to add as a structure is part of the circuit by reference' % (prog,))
+            given.add(co.Reset(0))
+            sb.circ.add(co.Rx180(1))
+        world.clear_memo()
+        if (circ_rows(b.circ), acq_of(b.circ.operations)) != before:
+            res.fail('C05-structure-dependent', 'program %r: the circuit changed when a block that had been added to it (as a structure) grew afterwards' % (prog,))
+    world.clear_memo()
+
+
+CopyFamily._structure_path = _structure_path
 
 
 def first_diff(a, b):
